@@ -27,6 +27,10 @@ func TestSim(t *testing.T) {
 				RunC11(st, tier, leg, logOn, res)
 			case "C12":
 				RunC12(st, tier, leg, logOn, res)
+			case "C15":
+				RunC15(st, tier, leg, logOn, res)
+			case "C16":
+				RunC16(st, tier, leg, logOn, res)
 			default:
 				panic("unknown SIM_PROP " + prop)
 			}
